@@ -28,11 +28,11 @@ theorem entries_are_contributing_elements (rules : List String) (ts : List Trans
 
 /-- **never pixel, overlay or colour-table data; private elements only through a translator**
     (default ignore rules, any translators, any dataset): no standard entry has an odd group, the
-    pixel-data tag, an overlay-data tag or a colour LUT tag -/
+    pixel-data tags (PixelData, FloatPixelData, DoubleFloatPixelData), an overlay-data tag or a colour LUT tag -/
 theorem never_pixel_never_private (ts : List Translator) (ds : List Elem) (st : State)
     (h : runElems Gen.defaultIgnoreRules ts ⟨[], [], []⟩ ds = some st) :
     ∀ x ∈ st.standard,
-      x.2.1 % 2 = 0 ∧ ¬ (x.2.1 = 0x7fe0 ∧ x.2.2 = 0x10) ∧
+      x.2.1 % 2 = 0 ∧ ¬ (x.2.1 = 0x7fe0 ∧ x.2.2 ∈ [0x10, 0x8, 0x9]) ∧
       ¬ (x.2.1 / 256 = 0x60 ∧ x.2.2 = 0x3000) ∧
       ¬ (x.2.1 = 0x28 ∧ x.2.2 ∈ [0x1201, 0x1202, 0x1203, 0x1221, 0x1222, 0x1223]) :=
   Ex.never_pixel_never_private ts ds st h
